@@ -188,12 +188,30 @@ def _capture(fn):
 
 
 # ----------------------------------------------------------------------------- implementation: bisc
-def _impl_read(d, name):
+def _impl_read1(d, name):
     path = os.path.join(d, name)
     r, out, err = _capture(lambda: _B.read_bisc_file(path))
     if err:
-        return err
-    return canon_read(r, out, path)
+        return err, None
+    return canon_read(r, out, path), r
+
+
+def _impl_read(d, name):
+    """one read as the line asks for it - and then the same read once more after the caller has emptied the
+    dictionary it was handed (and after an unrelated read of a name that does not exist): both reads must give the
+    same answer (what is on disk), i.e. a read neither aliases nor depends on an earlier read"""
+    c1, r = _impl_read1(d, name)
+    if isinstance(r, dict):
+        try:
+            for v in r.values():
+                if isinstance(v, list):
+                    del v[:]
+            r.clear()
+        except Exception:  # pylint: disable=broad-except
+            pass
+    _capture(lambda: _B.read_bisc_file(os.path.join(d, name + "_nosuchname")))
+    c2, _ = _impl_read1(d, name)
+    return c1 if c1 == c2 else "UNSTABLE:%s|%s" % (c1, c2)
 
 
 def _impl_bisc(init, ops):
@@ -339,6 +357,39 @@ def _impl_db(init, ops):
         signal.signal(signal.SIGALRM, old)
 
 
+def _load_again(p, dfa):
+    """the automaton just loaded for p is *used* (combined with the automaton of M and with itself, asked for
+    finiteness, its language sampled) and then loaded once more: the second load must describe the same automaton"""
+    before = repr(dfa)
+    try:
+        _PW.has_finite_pinperms([p], dfa=dfa)
+        dfa.union(dfa)
+        dfa.accepts_input("UR")
+        _PW.make_dfa_for_m().difference(dfa)
+    except Exception:  # pylint: disable=broad-except
+        pass
+    dfa2 = _PW.load_dfa_for_perm(_Perm(tuple(p)))
+    if repr(dfa2) != before or not dfa2 == dfa:
+        return _UnstableDFA(before, repr(dfa2))
+    return dfa2
+
+
+class _UnstableDFA:
+    """stands for an automaton whose second load differed from the first: equal to nothing, accepts nothing"""
+
+    def __init__(self, a, b):
+        self.a, self.b = a, b
+
+    def __repr__(self):
+        return "UNSTABLE-DFA:%d|%d" % (len(self.a), len(self.b))
+
+    def __eq__(self, other):
+        return False
+
+    def accepts_input(self, w):
+        return False
+
+
 def _impl_db_inner(init, ops):
     d = _workdir()
     old = os.getcwd()
@@ -377,11 +428,15 @@ def _impl_db_inner(init, ops):
                     p = _Perm(pseq(t[1]))
                     try:
                         dfa = _PW.load_dfa_for_perm(p)
+                        dfa = _load_again(p, dfa)
                     except SyntaxError:
                         outs.append("ERR:SyntaxError")
                         continue
                     except Exception as e:
                         outs.append("ERR:" + type(e).__name__)
+                        continue
+                    if isinstance(dfa, _UnstableDFA):
+                        outs.append(repr(dfa))
                         continue
                     if uni is None:
                         uni = _db_universe(init, ops)
@@ -403,6 +458,10 @@ def _impl_db_inner(init, ops):
                     basis = [_Perm(q) for q in pseqs(t[1])]
                     try:
                         dfa = _PW.make_dfa_for_basis_from_db(basis)
+                        dfa2 = _PW.make_dfa_for_basis_from_db(basis)       # the same request once more
+                        if not (dfa2 == dfa and _fingerprint(dfa2) == _fingerprint(dfa)):
+                            outs.append("UNSTABLE:basis-automaton-changed")
+                            continue
                     except SyntaxError:
                         outs.append("ERR:SyntaxError")
                         continue
